@@ -704,6 +704,7 @@ def cases(tier, seed):
     for part in range(4 if T else 1):
         add("deltas_rand", part=part, n=6000 if T else 2000)
     add("eexec", n=3000 if T else 600)
+    add("t1font", lenivs=[0, 1, 2, 3, 4, 5, 8] if T else [0, 1, 3, 4, 5])
     add("sstruct", n=4000 if T else 800)
     add("timestamps", n=60000 if T else 10000)
     for part in range(8 if T else 2):
@@ -962,6 +963,70 @@ def drv_eexec(case, rnd, ctx):
     import fontTools.t1Lib as t1Lib
     for v in [0, 1, 255, 256, 65535, 65536, 2 ** 24, 2 ** 32 - 1] + [rnd.randrange(2 ** 32) for _ in range(2000)]:
         t1Lib.longToString(v)
+
+
+def drv_t1font(case, rnd, ctx):
+    """Type 1 charstring encryption end to end: fonts declaring every /lenIV (written from the spec, see
+    vmon/gen/c15_t1.py) are read by the library (parse must return the plain charstrings) and written back in every
+    container form; a spec-level reader must recover the same plain charstrings and subroutines from the output."""
+    import os
+    import tempfile
+    from vmon import env
+    from vmon.gen import c15_t1 as G
+    import fontTools.t1Lib as t1Lib
+    ddir = os.path.join(env.TESTS, "t1Lib", "data")
+    srcs = sorted(f for f in os.listdir(ddir) if f.endswith((".pfa", ".pfb")))
+    tmp = tempfile.mkdtemp(prefix="vmon-c15-t1-")
+    try:
+        for fn in srcs:
+            with ctx.lib("t1Lib.read"):
+                src = t1Lib.read(os.path.join(ddir, fn))[0]
+            _h, plain, _t = G.split(src)
+            _l, glyphs0, subrs0, _s = G.charstrings(plain)
+            for n in case["lenivs"]:
+                for where in ("first", "before_subrs", "after_subrs"):
+                    data = G.with_lenIV(src, n, where, rnd)
+                    chk = G.charstrings(G.split(data)[1])
+                    if chk[0] != n or chk[1] != glyphs0 or chk[2] != subrs0:
+                        ctx.inconclusive("generator self-check failed for %s lenIV=%d %s" % (fn, n, where))
+                        continue
+                    path = os.path.join(tmp, "in.pfa")
+                    with open(path, "wb") as f:
+                        f.write(data)
+                    with ctx.lib("T1Font.parse"):
+                        font = t1Lib.T1Font(path)
+                        font.parse()
+                    ctx.judged()
+                    got = [(k, v.bytecode) for k, v in font.font["CharStrings"].items()]
+                    gots = [sr.bytecode for sr in font.font["Private"]["Subrs"]]
+                    if sorted(got) != sorted(glyphs0) or gots != subrs0:
+                        ctx.violation({"kind": "codec", "codec": "t1Lib.charstring-decrypt", "what": "parsed charstrings differ from the spec decryption"},
+                                      "T1Font.parse: %s with /lenIV %d (%s) decrypts differently" % (fn, n, where), {"font": fn, "lenIV": n, "where": where})
+                        continue
+                    for kind, dohex in (("OTHER", False), ("OTHER", True), ("PFB", False)):
+                        out = os.path.join(tmp, "out.pfb" if kind == "PFB" else "out.pfa")
+                        with ctx.lib("T1Font.saveAs"):
+                            font.saveAs(out, kind, dohex)
+                            back = t1Lib.read(out)[0]
+                        ctx.judged()
+                        try:
+                            l2, gl2, su2, _sp = G.charstrings(G.split(back)[1])
+                        except Exception as e:
+                            ctx.violation({"kind": "codec", "codec": "t1Lib.charstring-encrypt", "what": "written font cannot be decoded per the Type 1 spec"},
+                                          "T1Font.saveAs(%s, hex=%s): %s" % (kind, dohex, e), {"font": fn, "lenIV": n, "where": where})
+                            break
+                        if l2 != n or sorted(gl2) != sorted(glyphs0) or su2 != subrs0:
+                            what = "declared lenIV changed" if l2 != n else ("subroutines" if su2 != subrs0 else "charstrings") + " decode differently from what was read"
+                            ctx.violation({"kind": "codec", "codec": "t1Lib.charstring-encrypt", "what": what},
+                                          "T1Font.saveAs(%s, hex=%s): %s with /lenIV %d (%s): %s" % (kind, dohex, fn, n, where, what),
+                                          {"font": fn, "lenIV": n, "where": where, "written_lenIV": l2})
+                            break
+                    else:
+                        _cls("t1font/lenIV%d/%s" % (n, where))
+        ctx.sample = {"fonts": srcs, "lenIVs": case["lenivs"], "glyphs": len(glyphs0), "subrs": len(subrs0)}
+    finally:
+        import shutil
+        shutil.rmtree(tmp, ignore_errors=True)
 
 
 def drv_sstruct(case, rnd, ctx):
